@@ -155,6 +155,9 @@ func (h *Runner) ensureDB() error {
 	if h.DB != nil && h.DB.PageN() > 0 {
 		return nil
 	}
+	if _, err := os.Stat(filepath.Join(h.DBDir(), "database")); err == nil && h.DB != nil {
+		return nil // the (still empty) database file was created by an earlier, failed attempt
+	}
 	if h.DB == nil || true {
 		db, f, err := h.Store.CreateDB(h.Name)
 		if err != nil {
